@@ -26,7 +26,11 @@ def _shadow(p, ddl, ctor, run_kw, first):
     import copy
     sh = SHADOW
     sh["n"] += 1
-    keep = copy.deepcopy(first)
+    try:
+        keep = copy.deepcopy(first)
+    except Exception:
+        sh["uncopyable"] = sh.get("uncopyable", 0) + 1      # not plain data: left to the running check's own oracle
+        return
     try:
         again = ("ok", p.run(**run_kw))
     except Exception as e:
@@ -71,7 +75,12 @@ def run_history(ddl, ctor, kw_list):
         return [("exc", type(e).__name__, str(e)[:300])] * len(kw_list)
     for kw in kw_list:
         try:
-            out.append(("ok", copy.deepcopy(p.run(**kw))))
+            res = p.run(**kw)
+            try:
+                res = copy.deepcopy(res)
+            except Exception:
+                pass                                         # not plain data: the caller's oracle sees the object itself
+            out.append(("ok", res))
         except Exception as e:
             out.append(("exc", type(e).__name__, str(e)[:300]))
     return out
